@@ -332,54 +332,59 @@ def runClip (c : Json) (aux : Json) : Option Json := do
   pure (Json.mkObj [("clip_ok", Json.bool (ok && ok2))])
 
 /-- DP aggregation model on Float (`Qrlew.DpAgg.release`) against the table the real DP relation produced on SQLite with
-the noise draws at 0 (passed in `aux`, together with the clipping constants read off the relation) -/
+the noise draws at 0 (passed in `aux`, together with the clipping constants read off the relation); one or two aggregated
+columns (x with bound A, y with bound 3A), each with its own three derived columns -/
 def runDpAgg (c : Json) (aux : Json) : Option Json := do
   let nU ← (c.getObjVal? "n_units").toOption >>= jInt?
   let nG ← (c.getObjVal? "n_groups").toOption >>= jInt?
   let a ← (c.getObjVal? "a").toOption >>= jFloat?
   let mult ← (c.getObjVal? "mult").toOption >>= jFloat?
+  let two := ((c.getObjVal? "two_columns").toOption >>= fun b => b.getBool?.toOption).getD false
   let rowsJ ← (c.getObjVal? "rows").toOption >>= fun a => a.getArr?.toOption
-  let rows : List (DpAgg.Row Float) ← rowsJ.toList.mapM fun r => do
+  let rowsOf (k : Nat) : Option (List (DpAgg.Row Float)) := rowsJ.toList.mapM fun r => do
     let u ← (r.getArrVal? 0).toOption >>= jInt?
     let g ← (r.getArrVal? 1).toOption >>= jInt?
-    let x := ((r.getArrVal? 2).toOption >>= jFloat?)
+    let x := ((r.getArrVal? (2 + k)).toOption >>= jFloat?)
     pure (u.toNat, g.toNat, x)
-  -- the clipping constants of the three derived columns, as the relation carries them
-  let clipsJ ← (aux.getObjVal? "clips").toOption >>= fun a => a.getArr?.toOption
-  let clips ← clipsJ.toList.mapM fun e => do
-    let n ← (e.getArrVal? 0).toOption >>= fun t => t.getStr?.toOption
-    let v ← (e.getArrVal? 1).toOption >>= jFloat?
-    pure (n, v)
-  let cOne ← (clips.find? fun e => e.1.startsWith "_ONE_").map (·.2)
-  let cSq ← (clips.find? fun e => e.1.startsWith "_SQUARE_").map (·.2)
-  let cVal ← (clips.find? fun e => !(e.1.startsWith "_ONE_") && !(e.1.startsWith "_SQUARE_")).map (·.2)
-  -- … which must be the declared bounds times the multiplicity (the square's may be any upper bound of it)
-  let constsOk := clips.length == 3 && closeTo cOne mult && closeTo cVal (a * mult) && cSq ≥ a * a * mult * (1 - 1e-9)
-  let outs := DpAgg.release floatOps (fun x => x == 0.0) nU.toNat nG.toNat cOne cVal cSq rows
   let tableJ ← (aux.getObjVal? "table").toOption >>= fun a => a.getArr?.toOption
+  let nClips ← (aux.getObjVal? "n_clips").toOption >>= jInt?
   let near (x y tol : Float) : Bool := (x - y).abs ≤ tol
-  let rowOk (j : Nat) (m : DpAgg.Out Float) : Bool :=
-    match tableJ.toList.find? fun r => ((r.getArrVal? 0).toOption >>= jInt?) == some (Int.ofNat j) with
-    | none => false                 -- public grouping keys: every listed group is released
-    | some r =>
-      match (r.getArrVal? 1).toOption >>= jFloat?, (r.getArrVal? 2).toOption >>= jFloat?, (r.getArrVal? 3).toOption >>= jFloat?,
-            (r.getArrVal? 4).toOption >>= jFloat?, (r.getArrVal? 5).toOption >>= jFloat? with
-      | some ic, some is, some im, some iv, some id =>
-        let scale := (if m.sum.abs < 1 then 1 else m.sum.abs)
-        -- the count is cast to an integer by the relation (truncation on SQLite); a clipped count may sit an ulp below a whole number
-        let cntOk := ic == m.count.floor || (near m.count m.count.round 1e-6 && (ic == m.count.round || ic == m.count.round - 1))
-        let n := if m.count < 1 then 1 else m.count
-        let vtol := 1e-9 * (1 + m.mean * m.mean + (m.var).abs) + 1e-9
-        cntOk && near is m.sum (1e-9 * scale) && near im m.mean (1e-9 * scale / n + 1e-9 * m.mean.abs + 1e-12)
-          && near iv m.var vtol && near id m.std (Float.sqrt (2 * vtol) + 1e-9 * m.std)
-      | _, _, _, _, _ => false
-  let rec go (j : Nat) (l : List (DpAgg.Out Float)) : Bool := match l with
-    | [] => true
-    | m :: t => rowOk j m && go (j + 1) t
-  let ok := outs.length == nG.toNat && go 0 outs && tableJ.size == nG.toNat
-  if constsOk && ok then pure (Json.mkObj [("agg_ok", Json.bool true)])
-  else pure (Json.mkObj [("agg_ok", Json.bool false), ("consts_ok", Json.bool constsOk),
-    ("model", Json.arr (outs.map fun m => Json.arr #[toJson m.count, toJson m.sum, toJson m.mean, toJson m.var, toJson m.std]).toArray)])
+  -- one aggregated column: its rows, its declared bound, the name of its constants in `aux`, the offset of its 5 outputs
+  let column (k : Nat) (bound : Float) (key : String) : Option (Bool × List (DpAgg.Out Float)) := do
+    let rows ← rowsOf k
+    let cs ← (aux.getObjVal? key).toOption >>= fun a => a.getArr?.toOption
+    let cOne ← cs[0]? >>= jFloat?
+    let cVal ← cs[1]? >>= jFloat?
+    let cSq ← cs[2]? >>= jFloat?
+    -- the constants must be the declared bounds times the multiplicity (the square's may be any upper bound of it)
+    let constsOk := closeTo cOne mult && closeTo cVal (bound * mult) && cSq ≥ bound * bound * mult * (1 - 1e-9)
+    let outs := DpAgg.release floatOps (fun x => x == 0.0) nU.toNat nG.toNat cOne cVal cSq rows
+    let rowOk (j : Nat) (m : DpAgg.Out Float) : Bool :=
+      match tableJ.toList.find? fun r => ((r.getArrVal? 0).toOption >>= jInt?) == some (Int.ofNat j) with
+      | none => false                 -- public grouping keys: every listed group is released
+      | some r =>
+        let o := 1 + 5 * k
+        match (r.getArrVal? o).toOption >>= jFloat?, (r.getArrVal? (o + 1)).toOption >>= jFloat?, (r.getArrVal? (o + 2)).toOption >>= jFloat?,
+              (r.getArrVal? (o + 3)).toOption >>= jFloat?, (r.getArrVal? (o + 4)).toOption >>= jFloat? with
+        | some ic, some is, some im, some iv, some id =>
+          let scale := (if m.sum.abs < 1 then 1 else m.sum.abs)
+          -- the count is cast to an integer by the relation (truncation on SQLite); a clipped count may sit an ulp below a whole number
+          let cntOk := ic == m.count.floor || (near m.count m.count.round 1e-6 && (ic == m.count.round || ic == m.count.round - 1))
+          let n := if m.count < 1 then 1 else m.count
+          let vtol := 1e-9 * (1 + m.mean * m.mean + (m.var).abs) + 1e-9
+          cntOk && near is m.sum (1e-9 * scale) && near im m.mean (1e-9 * scale / n + 1e-9 * m.mean.abs + 1e-12)
+            && near iv m.var vtol && near id m.std (Float.sqrt (2 * vtol) + 1e-9 * m.std)
+        | _, _, _, _, _ => false
+    let rec go (j : Nat) (l : List (DpAgg.Out Float)) : Bool := match l with
+      | [] => true
+      | m :: t => rowOk j m && go (j + 1) t
+    pure (constsOk && outs.length == nG.toNat && go 0 outs, outs)
+  let (okx, outsx) ← column 0 a "clips_x"
+  let (oky, outsy) ← if two then column 1 (3 * a) "clips_y" else pure (true, [])
+  let ok := okx && oky && tableJ.size == nG.toNat && nClips == (if two then 6 else 3)
+  if ok then pure (Json.mkObj [("agg_ok", Json.bool true)])
+  else pure (Json.mkObj [("agg_ok", Json.bool false), ("x_ok", Json.bool okx), ("y_ok", Json.bool oky),
+    ("model", Json.arr ((outsx ++ outsy).map fun m => Json.arr #[toJson m.count, toJson m.sum, toJson m.mean, toJson m.var, toJson m.std]).toArray)])
 
 /-- trees of privacy-unit-tracking operators: `Qrlew.PupTree.eval` on the case's tables, rows rendered `unit|weight|c0|c1` and sorted -/
 partial def pupTreeOfJson? (j : Json) : Option PupTree.T := do
